@@ -320,6 +320,7 @@ def run(rep):
     hm = vmarms.ArmHarness(exm, rep)
     check_mapkey(rep, exm, hm, cross)
     rep.absorb(exm)
+    check_string_relational(rep, cross, 2 if rep.tier == 'quick' else 3)
     rep.cross = driver.cross_check(cross, 300, 'ALL', rep.tier, rep.seed)
     rep.extra['cross_checked_obligations'] = len(cross)
 
@@ -330,3 +331,95 @@ def replay_file(path):
     got = vmarms.reply_value(o)
     print('%s -> %r (expected %s)' % (d['src'], got, d.get('expected')))
     return 0 if repr(got) == str(d.get('expected')) else 1
+
+
+# ------------------------------------------------------------------------------------------------
+# string x string relational comparison (ECMAScript: lexicographic by UTF-16 code unit; ASCII here)
+# ------------------------------------------------------------------------------------------------
+KF_STRREL = 'C01/execute_op/relational-on-strings'
+
+
+def lex_lt(a, b):
+    """a < b for bounded ASCII strings, lexicographically"""
+    from emir.strings import bv, s_at
+    res = z3.ULT(a.n, b.n)        # proper prefix
+    m = min(a.cap, b.cap)
+    for i in reversed(range(m)):
+        both = z3.And(z3.ULT(bv(i), a.n), z3.ULT(bv(i), b.n))
+        res = z3.If(both, z3.If(a.bytes[i] == b.bytes[i], res, z3.ULT(a.bytes[i], b.bytes[i])), res if i == 0 else res)
+    # positions are examined from the front: rebuild front-to-back
+    res = z3.ULT(a.n, b.n)
+    for i in reversed(range(m)):
+        both = z3.And(z3.ULT(bv(i), a.n), z3.ULT(bv(i), b.n))
+        res = z3.If(both, z3.If(a.bytes[i] == b.bytes[i], res, z3.ULT(a.bytes[i], b.bytes[i])),
+                    z3.And(z3.UGE(bv(i), a.n), z3.ULT(bv(i), b.n)))
+    return res
+
+
+def check_string_relational(rep, cross, cap=2):
+    from emir.strings import s_eq, s_model_bytes
+    from emir.values import Str
+    ops = {'Lt': lambda l, e: l, 'LtEq': lambda l, e: z3.Or(l, e), 'Gt': lambda l, e: z3.And(z3.Not(l), z3.Not(e)), 'GtEq': lambda l, e: z3.Not(l)}
+    sym = {'Lt': '<', 'LtEq': '<=', 'Gt': '>', 'GtEq': '>='}
+    for name in ops:
+        ex = common.executor(unwind=cap + 4, str_cap=cap)
+        h = vmarms.ArmHarness(ex, rep)
+        # ToNumber of a string is outside this kernel: an implementation that converts both strings to numbers gets an arbitrary number
+        ex.havoc(r'^value::string_to_number$|^string_to_number$', ret=lambda e, s, c: Float(z3.FP(fresh_name('str2num'), F64)),
+                 label='value::string_to_number (arbitrary f64: string->number parsing is outside this kernel)')
+        st = State()
+        st.extra['alphabet'] = [z3.BitVecVal(c, 8) for c in b'ab1']
+        sa = ex.fresh_str(st, cap, 'sa')
+        sb = ex.fresh_str(st, cap, 'sb')
+        ta = Opaque('JsString', z3.Int('$sa_tok'))
+        tb = Opaque('JsString', z3.Int('$sb_tok'))
+        st.extra[('jsstr', str(ta.id))] = sa
+        st.extra[('jsstr', str(tb.id))] = sb
+        regs = [EnumV('JsValue', 0, {}), EnumV('JsValue', 4, {4: {0: ta}}), EnumV('JsValue', 4, {4: {0: tb}}), EnumV('JsValue', 0, {})]
+        vm = Agg('struct', 'BytecodeVM', {2: VecV(regs, 'JsValue')}, lazy=True)
+        a_vm = st.alloc(vm)
+        a_in = st.alloc(Agg('struct', 'Interpreter', {}, lazy=True))
+        vi = ex.variant_index('Op', name)
+        op = EnumV('Op', vi, {vi: {0: Int(z3.BitVecVal(0, 8), False), 1: Int(z3.BitVecVal(1, 8), False), 2: Int(z3.BitVecVal(2, 8), False)}})
+        ex.call_function(st, h.fn, [Ref(a_vm), Ref(a_in), op])
+        ends = ex.run(st)
+        if not common.require_clean(rep, ends, 'arm %s on strings' % name):
+            rep.absorb(ex)
+            continue
+        want = ops[name](lex_lt(sa, sb), s_eq(sa, sb))
+        for k, e in enumerate(ends):
+            res = h.result_reg(e, a_vm)
+            if not (isinstance(res.discr, int) and res.discr == 2):
+                g = z3.BoolVal(False)
+            else:
+                g = res.payload[2][0].e == want
+            t = time.time()
+            r, m = ex.check_sat_pc(e.st.pc, [z3.Not(g)])
+            what = 'arm %s on two strings path %d: lexicographic comparison' % (name, k)
+            rep.obligation(what, r, 'strings <= %d bytes over {a,b,1}' % cap, time.time() - t)
+            if r == 'unsat':
+                cross.append((what, list(e.st.pc) + [z3.Not(g)], 'unsat'))
+            elif not rep.seen(KF_STRREL) and not any(kk == KF_STRREL for kk, _ in rep.known_hits):
+                xa = s_model_bytes(m, sa).decode()
+                xb = s_model_bytes(m, sb).decode()
+                src = '%s %s %s' % (json.dumps(xa), sym[name], json.dumps(xb))
+                o = driver.replay([{'cmd': 'eval', 'src': src}])[0]
+                rep.validated += 1
+                lt = xa < xb
+                eq = xa == xb
+                expect = {'Lt': lt, 'LtEq': lt or eq, 'Gt': (not lt) and (not eq), 'GtEq': not lt}[name]
+                got = vmarms.reply_value(o)
+                if got == expect:
+                    # the solver's pair does not show it (the real string->number conversion happened to agree): use the canonical pair
+                    src = ('"a" %s "b"' if name in ('Lt', 'LtEq') else '"b" %s "a"') % sym[name]
+                    o = driver.replay([{'cmd': 'eval', 'src': src}])[0]
+                    rep.validated += 1
+                    got = vmarms.reply_value(o)
+                    expect = True
+                if got == expect:
+                    rep.inconc('%s: counterexample does not reproduce (%s -> %r)' % (what, src, got))
+                else:
+                    p = rep.write_replay('strrel-%s' % name, {'cmd': 'eval', 'src': src, 'expected': repr(expect), 'observed': repr(got)})
+                    rep.violation(KF_STRREL, '%s evaluates to %r, ECMAScript compares strings lexicographically: %r' % (src, got, expect), p)
+        rep.sample({'kernel': 'execute_op arm %s on string operands' % name, 'paths': len(ends)})
+        rep.absorb(ex)
